@@ -218,3 +218,26 @@ PLANS["C14"] = {
                 need("heap:recoveries", 50000), need("session:steps_checked", 500000), need_set("growth_paths", 13),
                 need_set("heap_growth_paths", 7), need_set("stack_limit_fired_in", 12), need_set("insn_limit_fired_at", 12)],
 }
+
+PLANS["C12"] = {
+    "jobs": {
+        "quick": [("", "release", 400000), ("", "dev", 40000), ("mixed", "release", 8000)],
+        "thorough": [("", "release", 3000000), ("", "dev", 300000), ("mixed", "release", 60000)],
+    },
+    "rule": "a case is a sequence of 10..60 collection operations over a pool of live values (maps: insert remove get foreach, map "
+            "literal rebuilt from shuffled pairs incl. an overwritten duplicate, equal?; vectors: push nth get slice reverse length "
+            "unbox collect sort concat join; strings: slice by character, length) mirrored on an association list keyed by structural "
+            "equality / plain sequences; keys and elements of every type (nil, flags, ints, reals, strings, bit-strings, vectors, maps), "
+            "randomly tagged at any depth; indexes from {0, +-1, +-len, +-(len+-1), isize min/max, 2^64, i128 min/max}; every live value "
+            "is re-checked every 8 operations (value semantics). In the main shard every map holds keys of one type (any of the 8); "
+            "the shard 'mixed' puts keys of different types into one map. distinct = distinct operation sequences",
+    "assumptions": ["map iteration order is unspecified: foreach is compared as a multiset of pairs",
+                    "length of a string is only compared for ASCII strings (the statement does not fix the unit); slice indexes characters",
+                    "slice clamps every index to 0..=len (as the suite pins); nth accepts negative indexes, get does not",
+                    "keys of different types in one map collide (known finding, see known_findings.json): exercised by the shard "
+                    "'mixed', whose non-crash mismatches on histories that involve such maps carry the signature C12:mixed-key-types"],
+    "require": [need("op:insert", 100000), need("op:remove", 30000), need("op:map-get", 30000), need("op:map-foreach", 30000),
+                need("op:map-literal", 30000), need("op:slice", 50000), need("op:sort", 20000), need("op:nth", 20000), need("op:get", 20000),
+                need("old_value_rechecks", 1000000), need("index_errors_confirmed", 20000), need_set("key_type_pairs", 8),
+                need_set("index_classes:nth", 8), need_set("index_classes:slice", 8), need_set("index_classes:str-slice", 8)],
+}
